@@ -125,7 +125,7 @@ def coq_chk(ctx, pid):
     """independent re-check of props/<pid>.vo and everything it depends on (thorough tier)"""
     coq = os.path.join(ctx.root, "coq")
     with flock(ctx, "coq"):
-        rc, out = sh(["coqchk", "-silent", "-o", "-Q", ".", "Chess", "Chess.props.%s" % pid], 3000, cwd=coq)
+        rc, out = sh(["coqchk", "-silent", "-o", "-Q", ".", "Chess", "Chess.props.%s" % pid], 7200, cwd=coq)
     ok = rc == 0 and "* Axioms: <none>" in out and "type-in-type: <none>" in out and "positivity is assumed: <none>" in out \
         and "unsafe (co)fixpoints: <none>" in out
     ctx.oblige("coqchk -o Chess.props.%s : re-checked by the independent checker, Axioms: <none>" % pid, ok, out[-1500:] if not ok else "")
